@@ -14,6 +14,7 @@ pub open spec fn byte_jif() -> u8 { opcode_byte(OpCode::JumpIfFalse) }
 pub proof fn lemma_emit_opcode_inv(pre: Compiler, post: Compiler, op: OpCode)
     requires gen_inv(pre), post.instructions@ == pre.instructions@.push(opcode_byte(op)), post.last_instruction == Some(op), same_but_code(pre, post),
              post.height@ == (if op_ends_flow(op) { H::Dead } else { hplus(pre.height@, op_delta(op)) }),
+             hcovers(pre.height@, op_needs(op)),
     ensures gen_inv(post)
 {}
 pub proof fn lemma_emit_operand_inv(pre: Compiler, post: Compiler, extra: Seq<u8>)
@@ -97,6 +98,7 @@ pub proof fn lemma_if_gen_post(a: Compiler, s_cond: Compiler, e1: Compiler, s_co
         // a block value never ends in a removable Pop / ReturnValue (block_value_post)
         s_cons.last_instruction is None || s_cons.last_instruction == Some(OpCode::Null),
         s_pre.last_instruction is None || s_pre.last_instruction == Some(OpCode::Null),
+        hcovers(s_mid.height@, 0), hcovers(fin.height@, 0),
         sym_depth(fin.symbols) == sym_depth(a.symbols), sym_contexts(fin.symbols) == sym_contexts(a.symbols), sym_outer(fin.symbols) == sym_outer(a.symbols),
     ensures gen_post(a, fin, true)
 {
